@@ -186,7 +186,10 @@ def vclass_getattr(C, attr, st, fr):
             return ex.ok(SStr(lit='rational'), st)
         if inst == 'guarded':
             return ex.ok(SStr(lit='guarded'), st)
-        return ex.ok(SStr(t=st.ghost.setdefault('V_name', fresh_int('V_name'))), st)
+        # Fixed.initialize: 'integer' when precision is 0, else 'fixed'
+        nm = st.ghost.setdefault('V_name', fresh_int('V_name'))
+        st.assume(z3.Or(nm == SStr(lit='fixed').t, nm == SStr(lit='integer').t))
+        return ex.ok(SStr(t=nm), st)
     if attr in ('mul', 'div', 'muldiv', 'min', 'report', 'initialize'):
         return ex.ok(SBuiltin('V.' + attr), st)
     if attr == 'info':
@@ -215,6 +218,12 @@ def _round(kwargs, args, idx):
 def v_muldiv(C, name, args, kwargs, st, fr):
     ex = C.ex
     n = {'mul': 2, 'div': 2, 'muldiv': 3}[name]
+    for i, x in enumerate(args[:n]):
+        if isinstance(x, SOpt) and isinstance(x.inner, (SVal, SInt)):
+            # an optional value as operand: None has no _value -> AttributeError/TypeError in the real classes
+            def some(s, i=i, x=x):
+                return v_muldiv(C, name, list(args[:i]) + [x.inner] + list(args[i + 1:]), kwargs, s, fr)
+            return ex.split(x.isnone, st, lambda s: ex.exc('TypeError', s), some)
     ops = [lift(C, a, st) for a in args[:n]]
     rnd = _round(kwargs, args, n)
     if ex.instance == 'real':
